@@ -408,6 +408,19 @@ def _enumerate(interp, args, kwargs):
 
 def _zip(interp, args, kwargs):
     seqs = [interp.iterate(a) for a in args]
+    if any(s is None for s in seqs) and args and all(isinstance(a, GhostVal) and hasattr(a, "pv_getitem") for a in args):
+        # ghost sequences of symbolic length: the pointwise list of tuples, as long as the shortest argument
+        from .values import PointwiseSeq
+        try:
+            lens = [_zint(a.pv_len()) for a in args]
+        except OutOfSubset:
+            lens = None
+        if lens is not None and all(l is not None for l in lens):
+            ln = lens[0]
+            for l in lens[1:]:
+                ln = z3.If(l < ln, l, ln)
+            srcs = list(args)
+            return PointwiseSeq(z3.simplify(ln) if not isinstance(ln, int) else ln, lambda j: tuple(a.pv_getitem(j) for a in srcs), "zip")
     if any(s is None for s in seqs):
         return Opaque("zip")
     return IterVal([tuple(xs) for xs in zip(*seqs)])
